@@ -120,30 +120,55 @@ func (e *Exec) timerOp(t *vtimer, pos string, reset bool, d time.Duration) bool 
 type TimerHandle struct{ t *vtimer }
 
 func NewTimerAt(pos string, d time.Duration) (TimerHandle, <-chan time.Time) {
-	e := current()
+	e := cur.Load()
+	if e == nil {
+		// outside a controlled execution (object construction while planning): an inert timer
+		t := &vtimer{pos: pos, c: make(chan time.Time, 1)}
+		return TimerHandle{t}, t.c
+	}
 	t := e.newTimer(pos, d, 0, nil)
 	return TimerHandle{t}, t.c
 }
 
 func NewTickerAt(pos string, d time.Duration) (TimerHandle, <-chan time.Time) {
-	e := current()
+	e := cur.Load()
+	if e == nil {
+		t := &vtimer{pos: pos, c: make(chan time.Time, 1)}
+		return TimerHandle{t}, t.c
+	}
 	t := e.newTimer(pos, d, d, nil)
 	return TimerHandle{t}, t.c
 }
 
 func AfterFuncAt(pos string, d time.Duration, fn func()) TimerHandle {
-	e := current()
+	e := cur.Load()
+	if e == nil {
+		return TimerHandle{&vtimer{pos: pos}}
+	}
 	return TimerHandle{e.newTimer(pos, d, 0, fn)}
 }
 
-func (h TimerHandle) Stop(pos string) bool { return current().timerOp(h.t, pos, false, 0) }
+func (h TimerHandle) Stop(pos string) bool {
+	e := cur.Load()
+	if e == nil {
+		return false
+	}
+	return e.timerOp(h.t, pos, false, 0)
+}
 func (h TimerHandle) Reset(pos string, d time.Duration) bool {
-	return current().timerOp(h.t, pos, true, d)
+	e := cur.Load()
+	if e == nil {
+		return false
+	}
+	return e.timerOp(h.t, pos, true, d)
 }
 
 // SleepFor parks the goroutine until virtual time has advanced by d.
 func SleepFor(pos string, d time.Duration) {
-	e := current()
+	e := cur.Load()
+	if e == nil {
+		return
+	}
 	g := e.self()
 	e.mu.Lock()
 	at := e.now + d
